@@ -468,6 +468,19 @@ def gen(rng, n, tier="quick"):
         elif r < 0.94:
             pn = [G.ident(rng) for _ in range(rng.randint(0, 3))]
             add("rewrite", {"ids": pn, "body_src": gen_body_src(rng, pn, allow_opaque_params=rng.random() < 0.3)}, ["rewrite"])
+        elif r < 0.955:
+            it = {"body_src": gen_body_src(rng, ["a"]) if rng.random() < 0.85 else None,
+                  "from_name": rng.choice(["f", "g", None]), "from_type": rng.choice(["static", "self", None])}
+            if it["body_src"] is None:
+                it.pop("body_src")
+                it["body"] = []
+            if rng.random() < 0.15:
+                it.pop(rng.choice(["from_name", "from_type"]))
+            ir = {"name": "f", "type": "static", "doc": "d", "params": {}, "returns": None}
+            if rng.random() < 0.9:
+                ir["_internal"] = it
+            add("internal_body", {"name": rng.choice(["f", "g", None]), "type": rng.choice(["static", "self", None]), "ir": ir},
+                ["internal_body"])
         elif r < 0.97:
             s = rng.choice(CODE_SNIPPETS + [t for t in TYPS if t] + [" x", "\tx", "a b", "`x`", "x = 1", "a\n.b", "X[a,]", "f(",
                                                                     "List[int", "[[", "", "  "])
